@@ -33,6 +33,10 @@ EXTENDS TraceBase, Dedisp
 VARIABLES l, nbad
 
 Ok(c, name) == IF c THEN {} ELSE {name}
+\* TLC applies a function expression [i \in S |-> e] by re-evaluating e on
+\* every application; TLCEval materialises it once.  EDft is the kernel DFT
+\* on materialised input, twiddles and output.
+EDft(x, sgn, W) == TLCEval(DftW(x, sgn, W))
 Eps6 == RPow10(-6)
 RSum(s) == LET RECURSIVE go(_, _)
                go(i, acc) == IF i > Len(s) THEN acc ELSE go(i + 1, RAdd(acc, s[i]))
@@ -55,19 +59,22 @@ DelayFailed(e) ==
      ELSE LET rate == RMul(e.rate, e.rates)
           IN Ok(RClose(e.out, RMul(law, rate), RMul(tol, rate)), "law")
 
-\* chain f_1 .. f_n: fwd[i] = delay(f_i, f_i+1), bwd[i] = delay(f_i+1, f_i), tot = delay(f_1, f_n)
+\* chain f_1 .. f_n: fwd[i] = delay(f_i, f_i+1), bwd[i] = delay(f_i+1, f_i), tot = delay(f_1, f_n).
+\* Sums are judged with n times the largest single tolerance of the chain.
 ChainFailed(e) ==
   LET kdm == KDM(e.dm)
       n == Len(e.fq)
-      isq == [i \in 1..n |-> InvSq(e.fq[i])]
+      isq == TLCEval([i \in 1..n |-> InvSq(e.fq[i])])
       law(i, j) == DelayI(kdm, isq[i], isq[j])
       tol(i, j) == LawTol(kdm, isq[i], isq[j])
-      tols == [i \in 1..(n - 1) |-> tol(i, i + 1)]
-  IN Ok(\A i \in 1..(n - 1) : RClose(e.fwd[i], law(i, i + 1), tols[i])
-                            /\ RClose(e.bwd[i], law(i + 1, i), tols[i])
+      RECURSIVE mx(_, _)
+      mx(i, m) == IF i > n THEN m ELSE mx(i + 1, RMax(m, isq[i]))
+      tolmax == LawTol(kdm, mx(2, isq[1]), RZero)
+  IN Ok(\A i \in 1..(n - 1) : RClose(e.fwd[i], law(i, i + 1), tol(i, i + 1))
+                            /\ RClose(e.bwd[i], law(i + 1, i), tol(i, i + 1))
         /\ RClose(e.tot, law(1, n), tol(1, n)), "law")
-     \cup Ok(\A i \in 1..(n - 1) : RLe(RAbs(RAdd(e.fwd[i], e.bwd[i])), RMul(RI(2), tols[i])), "antisymmetry")
-     \cup Ok(RLe(RAbs(RSub(RSum(e.fwd), e.tot)), RAdd(RSum(tols), tol(1, n))), "additivity")
+     \cup Ok(\A i \in 1..(n - 1) : RLe(RAbs(RAdd(e.fwd[i], e.bwd[i])), RMul(RI(2), tol(i, i + 1))), "antisymmetry")
+     \cup Ok(RLe(RAbs(RSub(RSum(e.fwd), e.tot)), RMul(RI(n), tolmax)), "additivity")
 
 (***************************************************************************)
 (* Common clauses of every call that returns a signal                      *)
@@ -87,13 +94,17 @@ MetaClauses(e) == Ok(e.zin = e.zout, "metadata")
 IncohFailed(e) ==
   LET kdm == KDM(e.dm)
       n == Len(e.fq)
-      dx == [i \in 1..n |-> SampleDelay(kdm, e.fq[i], e.fref, e.rate)]
+      \* channel delays to 2^-45 sample (Dedisp 1b); beyond 1e-6 of a half-integer
+      \* they round like the exact delays
+      dx == TLCEval([i \in 1..n |-> DelayFixRat(SampleDelayFix(kdm, e.fq[i], e.fref, e.rate))])
       amb == \E i \in 1..n : RLt(DistToHalf(dx[i]), Eps6)
       big == \E i \in 1..n : ~RLt(RAbs(dx[i]), RI(1000000000))
-  IN IF big THEN {"precondition-delay-range"}
+  IN IF e.xcheck /\ ~(\A i \in 1..n : SampleDelayAgrees(kdm, e.fq[i], e.fref, e.rate))
+     THEN {"precondition-delayfix"}
+     ELSE IF big THEN {"precondition-delay-range"}
      ELSE IF amb THEN {"ambiguous"}
      ELSE
-      LET d == [i \in 1..n |-> ToInt(RRound(dx[i]))]
+      LET d == TLCEval([i \in 1..n |-> ToInt(RRound(dx[i]))])
           op == IncohOp(e.len, d, "code")
       IN IF ~op.ok \/ op.outlen = 0
          THEN Ok(e.err \/ e.outlen = 0, "no-valid-time-but-samples-returned")
@@ -130,9 +141,15 @@ BinInfo(kdm, fc, fref, N, dt, k) ==
   IN [pos |-> pos,
       phase |-> IF pos THEN ChirpPhaseFix(kdm, f, fref) ELSE Zero,
       \* 7 * 2^-49 * K|DM||D| * g * 2^60 < 2^14 * (...), + 2 for the roundings
-      bud |-> IF pos THEN Add(ChirpSlopeFix(kdm, f, fref, g, 14), FromInt(2)) ELSE Zero,
-      exact |-> IF pos THEN PhaseFixAgrees(kdm, f, fref) ELSE FALSE]
-PhaseH(v) == ChirpH(R(Mod(v, Pow2(PFBITS)), Pow2(PFBITS)))
+      bud |-> IF pos THEN ChirpSlopeFix(kdm, f, fref, g, 14) ELSE Zero]
+BinExact(kdm, fc, fref, N, dt, k) ==
+  LET f == BinFreq(fc, k, N, dt)
+  IN /\ PhaseFixAgrees(kdm, f, fref)
+     /\ LET v == ChirpPhaseFix(kdm, f, fref)
+            a == CosSinDy(v)
+            b == CosSin(PhaseFixRat(v))
+        IN FClose(a.c, b.c, FromInt(8)) /\ FClose(a.s, b.s, FromInt(8))
+PhaseH(v) == ChirpHFix(v)
 Tol2em6 == FFromRat(RMul(RI(2), RPow10(-6)))
 BudFix(bud) == bud
 BinOK(kdm, fc, fref, N, dt, k, val) ==
@@ -144,7 +161,7 @@ ChirpFailed(e) ==
   IN Ok(\A j \in 1..Len(e.ks) : BinOK(kdm, e.fc, e.fref, e.N, e.dt, e.ks[j], e.vals[j]), "chirp-law")
      \* sampled self-check of the bounded-precision phase against the exact one
      \cup (IF e.xcheck >= 0
-           THEN Ok(BinInfo(kdm, e.fc, e.fref, e.N, e.dt, e.xcheck).exact, "precondition-phasefix")
+           THEN Ok(BinExact(kdm, e.fc, e.fref, e.N, e.dt, e.xcheck), "precondition-phasefix")
            ELSE {})
 
 (***************************************************************************)
@@ -154,8 +171,11 @@ ChirpFailed(e) ==
 \* object (then the code computes an exact zero)
 EdgeDelays(e) ==
   LET kdm == KDM(e.dm)
-  IN [top |-> IF e.refis = "top" THEN RZero ELSE SampleDelay(kdm, e.top, e.fref, e.rate),
-      bot |-> IF e.refis = "bot" THEN RZero ELSE SampleDelay(kdm, e.bot, e.fref, e.rate)]
+      D(f) == DelayFixRat(SampleDelayFix(kdm, f, e.fref, e.rate))     \* to 2^-45 sample (Dedisp 1b)
+  IN [top |-> IF e.refis = "top" THEN RZero ELSE D(e.top),
+      bot |-> IF e.refis = "bot" THEN RZero ELSE D(e.bot),
+      agree |-> ~e.xcheck \/ (SampleDelayAgrees(kdm, e.top, e.fref, e.rate)
+                              /\ SampleDelayAgrees(kdm, e.bot, e.fref, e.rate))]
 EdgeAmbiguous(e, dl) ==
   \/ (e.refis # "top" /\ RLt(DistToInt(dl.top), Eps6))
   \/ (e.refis # "bot" /\ RLt(DistToInt(dl.bot), Eps6))
@@ -167,7 +187,8 @@ CropClauses(e, w) ==
 
 CropFailed(e) ==
   LET dl == EdgeDelays(e)
-  IN IF EdgeAmbiguous(e, dl) THEN {"ambiguous"}
+  IN IF ~dl.agree THEN {"precondition-delayfix"}
+     ELSE IF EdgeAmbiguous(e, dl) THEN {"ambiguous"}
      ELSE CropClauses(e, CohWindow(e.N, dl.top, dl.bot, TRUE))
 
 \* a pure tone in bin ks[c] of channel c comes out multiplied by H[ks[c]]
@@ -175,16 +196,22 @@ ToneFailed(e) ==
   LET dl == EdgeDelays(e)
       kdm == KDM(e.dm)
       N == e.N
-  IN IF EdgeAmbiguous(e, dl) THEN {"ambiguous"}
+  IN IF ~dl.agree THEN {"precondition-delayfix"}
+     ELSE IF EdgeAmbiguous(e, dl) THEN {"ambiguous"}
      ELSE
       LET w == CohWindow(N, dl.top, dl.bot, TRUE)
-          tol9 == FFromRat(RPow10(-9))
           scale == e.amp
+          \* x[c] is a tone of bin ks[c]: x[n] = x[0] w^n within 3e-7 amp (the
+          \* rounding of complex64 input); N such errors add at most
+          \* sqrt(N) 3e-7 amp < 1e-5 amp to the output
+          tolT == MulInt(FFromRat(RMul(RI(3), RPow10(-7))), scale)
           IsTone(c) ==
             LET wk == CExp(RQ(FftBin(e.ks[c], N), N))
                 x == e.x[c]
-            IN \A i \in 1..N :
-                 CClose(x[IF i = N THEN 1 ELSE i + 1], CMul(x[i], wk), MulInt(tol9, scale))
+                RECURSIVE go(_, _)
+                go(i, p) == IF i > N THEN TRUE
+                            ELSE CClose(x[i], p, tolT) /\ go(i + 1, CMul(p, wk))
+            IN go(1, x[1])
           ChanOK(c) ==
             LET b == BinInfo(kdm, e.fq[c], e.fref, N, e.dt, e.ks[c])
                 h == PhaseH(b.phase)
@@ -202,13 +229,16 @@ DdFailed(e) ==
   LET dl == EdgeDelays(e)
       kdm == KDM(e.dm)
       N == e.N
-  IN IF EdgeAmbiguous(e, dl) THEN {"ambiguous"}
+  IN IF ~dl.agree THEN {"precondition-delayfix"}
+     ELSE IF EdgeAmbiguous(e, dl) THEN {"ambiguous"}
      ELSE
       LET w == CohWindow(N, dl.top, dl.bot, TRUE)
+          W == TLCEval(Twiddles(N))
           Chan(c) ==
-            LET info == [k \in 1..N |-> BinInfo(kdm, e.fq[c], e.fref, N, e.dt, k - 1)]
-                X == FDft([i \in 1..N |-> CFromInts(e.x[c][i][1], e.x[c][i][2])])
-                y == IDft([k \in 1..N |-> CMul(X[k], PhaseH(info[k].phase))])
+            LET info == TLCEval([k \in 1..N |-> BinInfo(kdm, e.fq[c], e.fref, N, e.dt, k - 1)])
+                X == EDft(TLCEval([i \in 1..N |-> CFromInts(e.x[c][i][1], e.x[c][i][2])]), -1, W)
+                Y == EDft(TLCEval([k \in 1..N |-> CMul(X[k], PhaseH(info[k].phase))]), 1, W)
+                y == TLCEval([k \in 1..N |-> CDivSmall(Y[k], N)])
                 RECURSIVE mx(_, _)
                 mx(k, m) == IF k > N THEN m ELSE mx(k + 1, IF Lt(m, info[k].bud) THEN info[k].bud ELSE m)
             IN [y |-> y, bud |-> mx(1, Zero), pos |-> \A k \in 1..N : info[k].pos]
@@ -233,14 +263,15 @@ SuppliedFailed(e) ==
 \* DM then -DM restores a compactly supported input on the doubly cropped support
 RoundTripFailed(e) ==
   LET dl == EdgeDelays(e)
-  IN IF EdgeAmbiguous(e, dl) THEN {"ambiguous"}
+  IN IF ~dl.agree THEN {"precondition-delayfix"}
+     ELSE IF EdgeAmbiguous(e, dl) THEN {"ambiguous"}
      ELSE
       LET w1 == CohWindow(e.N, dl.top, dl.bot, TRUE)
           w2 == CohWindow(w1.len, RNeg(dl.top), RNeg(dl.bot), TRUE)
           off == w1.first + w2.first
-          S == e.N - w1.len                       \* samples lost to one pass
           tol == FMul(FTol10(5), e.scale)
-      IN IF ~(e.lo >= off + S /\ e.hi <= off + w2.len - 1 - S) THEN {"precondition-support"}
+      \* the input must vanish (< 1e-9 max) outside the doubly cropped range
+      IN IF ~(e.lo >= off + 2 /\ e.hi <= off + w2.len - 3) THEN {"precondition-support"}
          ELSE Ok(e.len1 = w1.len /\ e.len2 = w2.len, "length")
               \cup (IF e.hasT THEN Ok(RClose(e.adv1, RI(w1.first), e.advtol)
                                       /\ RClose(e.adv2, RI(off), e.advtol), "start") ELSE {})
